@@ -105,6 +105,20 @@ CHECKS = {
                      "(work item touched after release), TSan. 9 drivers x LCP on/off are explored over every interleaving within the delay bound in ASan and TSan builds.",
                 note="SC interleavings; delay bound 1 (quick) / 2 (thorough); tiny thresholds stand in for the default ones (same code, different constants); default classifier only; "
                      "scheduling points at synchronisation operations only, plain accesses are covered by TSan on the explored executions"),
+    "C03": dict(engine="venum", technique=E3, design="4/C03",
+                text="sort_strings / sort_strings_lcp (all 20 overloads) and the selectable detail sorters (insertion sort, multikey quicksort, radixsort CE0/CE2/CE3/CI2/CI3) "
+                     "with and without LCP over UChar/Std/UPtrStd string sets and suffix sets: shapes (all sequences of <=k distinct strings over {0x01,a,b,0xFF} of length <=L "
+                     "plus two long strings sharing a 9-byte prefix) x multiplicity vectors over {1,2,31,32,33,70} (both sides of the 32 threshold) x 4 arrangements x memory "
+                     "limits chosen around the radix step sizes so every documented fall-back edge is taken, every text over {a,b} up to length 12 for suffix sets, and a family "
+                     "of 65535..131072-string inputs for the 16-bit radix switch: permutation of the same string objects, unsigned-byte order, exact LCPs, ASan with asserts on.",
+                note="NUL-free strings; stated alphabet/length/multiplicity bounds; n <= 131072"),
+    "C16": dict(engine="vhist", technique=E2, design="4/C16",
+                text="RingBuffer<Tracked, CountingAllocator> and RingBuffer<int>: BFS closure per (max_size 0..5 quick / 0..9 thorough, second-buffer size) over every history of "
+                     "push/emplace at both ends (copy and move), pops, clear, copy/move construction and assignment between two buffers (incl. self), deallocate + allocate(m), move_to, "
+                     "states de-duplicated on (capacity, mask, begin, end, contents) so both cursors wrap from every offset; std::deque model for contents and accessors, "
+                     "live-set of lifetime-tracked elements == stored elements after every transition, allocator ledger, ASan. SimpleVector in its three modes: construct, resize, "
+                     "destroy, fill, move construct/assign, swap with exact element ledger in Normal mode.",
+                note="driver never exceeds max_size / pops an empty buffer (documented contract); documented reduction rules R1-R5 bound the two-buffer product"),
 }
 
 NA = {}
